@@ -1264,6 +1264,7 @@ int32_t jls_core_repair_fsr(struct jls_core_s * self, uint16_t signal_id) {
     jls_core_fsr_summary_level_alloc(signal_info->track_fsr, level);
     struct jls_core_fsr_level_s * lvl = signal_info->track_fsr->level[level];
     bool skip_summary = false;
+    struct jls_core_chunk_s summary_prev = {.offset=0};  // previous summary chunk of the current level
 
     while (level > 0) {
         JLS_LOGI("repair_fsr signal_id %d, level %d, offset %" PRIi64, (int) signal_id, (int) level, offset);
@@ -1279,6 +1280,14 @@ int32_t jls_core_repair_fsr(struct jls_core_s * self, uint16_t signal_id) {
         }
         track->index_head[level] = index_head;
         offset_index_next = index_head.hdr.item_next;
+        if (summary_prev.offset && (summary_prev.hdr.item_next != (uint64_t) self->chunk_cur.offset)) {
+            // the writer stopped after this summary was written but before the previous one was linked to it
+            struct jls_core_chunk_s summary_this = self->chunk_cur;
+            summary_prev.hdr.item_next = summary_this.offset;
+            ROE(jls_core_update_chunk_header(self, &summary_prev));
+            self->chunk_cur = summary_this;
+        }
+        summary_prev = self->chunk_cur;
         track->summary_head[level] = self->chunk_cur;
         memcpy(lvl->summary, self->buf->start, self->chunk_cur.hdr.payload_length);
 
@@ -1304,6 +1313,7 @@ int32_t jls_core_repair_fsr(struct jls_core_s * self, uint16_t signal_id) {
         } else {
             skip_summary = true;
             --level;
+            summary_prev.offset = 0;
             if (r->header.entry_count > 0) {
                 offset = r->offsets[r->header.entry_count - 1];
                 if (0 == level) {
